@@ -32,12 +32,14 @@ Inductive sub : Type :=
 | LoopV (a b off : Z)         (* for i in a:b loop ... x[i+off] *)
 | LoopV3 (a b c off : Z).     (* for i in a:b:c loop ... x[i+off] *)
 
-(* which of the three repairs the tree under test contains (derived from its behaviour by the
-   check; all false = /repo as of round 1) *)
+(* which of the repairs the tree under test contains (derived from its behaviour by the
+   check; all false = /repo as of round 1; /repo after 05b675f, f098077, f8eb4b4 = true true false true) *)
 Record cfg : Type := Cfg {
   chk_slice : bool;   (* constant slice bounds are range-checked (fixes/C23_slice_range_check.diff) *)
   chk_loop : bool;    (* for-loop indices are range-checked (fixes/C23_loop_index_range_check.diff) *)
-  mod3 : bool         (* a:b:c is read start:step:stop and loop values stop at `stop` (no fix yet) *)
+  mod3 : bool;        (* a:b:c is read start:step:stop and loop values stop at `stop` (no fix yet) *)
+  empty_ok : bool     (* register_indexed_symbol skips the index-expression map for an empty loop range
+                         (/repo f8eb4b4): `for i in 3:1 loop x[i+1]` selects nothing instead of failing *)
 }.
 
 (* ---- Python / NumPy ranges ------------------------------------------------------------- *)
@@ -103,7 +105,7 @@ Definition loop_path (c : cfg) (n start stop step off : Z) : res (list Z) :=
   let indices := map (fun v => v + off) values in                                          (* :64-71 *)
   (* :65-68 an index expression other than the bare loop variable is evaluated by mapping a CasADi
      function over the loop values; CasADi refuses a map over zero values *)
-  if negb (off =? 0) && (match values with [] => true | _ => false end) then ErrB else
+  if negb (off =? 0) && negb (empty_ok c) && (match values with [] => true | _ => false end) then ErrB else
   if chk_loop c && negb (all_in n indices) then ErrV else     (* repaired: min < 1 or max > dim *)
   shift1 (mapM (ca_wrap n) (map (fun k => k - 1) indices)).   (* :72 indices - 1, :512 orig_symbol[indices] *)
 
